@@ -930,6 +930,42 @@ func init() {
 	registerRows("C07", early)
 	registerRows("C08", early)
 
+	// ---- C10: multiproofs over leaf indices in the upper half of the 64-bit range
+	registerRows("C10", probeRow{"Z2-multiproof-high-leaf-indices", func(w *World, n *Node) {
+		t := w.tape
+		base := pick(t, uint64(1)<<63, uint64(1)<<63|uint64(1)<<40, ^uint64(0)-31, uint64(1)<<62)
+		h := t.Range(1, 6)
+		k := t.Range(2, 4)
+		var txns []types.V2Transaction
+		used := map[uint64]bool{}
+		for i := 0; i < k; i++ {
+			idx := base + uint64(t.Choose(1<<h))
+			if used[idx] {
+				continue
+			}
+			used[idx] = true
+			el := types.SiacoinElement{ID: types.SiacoinOutputID{byte(i), 0x3c}, SiacoinOutput: types.SiacoinOutput{Value: types.Siacoins(1), Address: w.advAddr()}, StateElement: types.StateElement{LeafIndex: idx}}
+			for j := 0; j < h; j++ {
+				el.StateElement.MerkleProof = append(el.StateElement.MerkleProof, types.Hash256{byte(i), byte(j), 0x3c})
+			}
+			txns = append(txns, types.V2Transaction{SiacoinInputs: []types.V2SiacoinInput{{Parent: el, SatisfiedPolicy: types.SatisfiedPolicy{Policy: types.AnyoneCanSpend()}}}})
+		}
+		var buf bytes.Buffer
+		e := types.NewEncoder(&buf)
+		if p := guard(func() { types.V2TransactionsMultiproof(txns).EncodeTo(e); e.Flush() }); p != "" {
+			return // not encodable: cannot arrive this way
+		}
+		var back types.V2TransactionsMultiproof
+		d := types.NewBufDecoder(buf.Bytes())
+		if p := guard(func() { back.DecodeFrom(d) }); p != "" {
+			w.violate("C10", "decode-multiproof-panic", fmt.Sprintf("decoding the multiproof form of %d transactions whose parents sit at leaf indices from %d (proofs of %d hashes) panicked: %s", len(txns), base, h, p))
+			return
+		}
+		w.stats.Inc("probe.Z2-multiproof-high-leaf-indices")
+		w.stats.Inc("probe.crash")
+		w.stats.Inc("probe.rows-run")
+	}})
+
 	// ---- C04: leaf-index bits above the tree, a chain index whose block ID is altered, a contract that never existed
 	registerRows("C04", probeRow{"M1-high-leaf-index-bits", func(w *World, n *Node) {
 		sc := n.fork()
